@@ -6,6 +6,7 @@ import VtProofs.MvtCodec
 import VtProofs.MvtShape
 import VtProofs.MvtFromIter
 import VtProofs.Csv
+import VtProofs.Geom
 /-!
 # C11 – updating vector-tile properties leaves everything else untouched; PBF round trips
 
@@ -476,5 +477,54 @@ example : parseStr [48, 49] none = .ok (.uint 1) := by decide
 example : parseStr [48, 32] none = .ok (.str [48, 32]) := by decide
 example : parseStr [45, 48, 51] none = .ok (.int (-3)) := by decide
 example : VtProofs.Csv.SepOk 44 := ⟨by decide, by decide, by decide⟩
+
+/-! ## 8. geometry command streams (`to_geometry` / `from_geometry`)
+
+Not part of what the two operations touch (they keep the geometry bytes), but part of the anchored
+`feature.rs`: the decoder reads back what the encoder writes, and never panics on a malformed
+stream.  `PtOk` = coordinates inside `i64`; deltas are whatever the encoder's (unchecked) subtraction
+produced without panicking – in particular every `i32` coordinate pair, whose deltas fit 33 bits. -/
+
+section geometry
+open VtModel.Geom VtProofs.Geom
+
+theorem geom_points_roundtrip (ps : List Pt) (hne : ps ≠ []) (hok : ∀ p ∈ ps, PtOk p)
+    (hlen : ps.length * 8 + 1 < U64) (t : Nat) (b : Bytes) (he : fromGeometry (.points ps) = .ok (t, b)) :
+    toGeometry t b = .ok (.points ps) :=
+  points_roundtrip ps hne hok hlen t b he
+
+theorem geom_lines_roundtrip (ls : List (List Pt)) (hne : ls ≠ []) (hok : ∀ l ∈ ls, LineOk l)
+    (t : Nat) (b : Bytes) (he : fromGeometry (.lines ls) = .ok (t, b)) :
+    toGeometry t b = .ok (.lines ls) :=
+  lines_roundtrip ls hne hok t b he
+
+/-- polygons = outer ring (positive `area_ring`) followed by inner rings (negative), rings closed, ≥ 4 points -/
+theorem geom_polygons_roundtrip (ps : List (List (List Pt))) (hne : ps ≠ []) (hok : ∀ p ∈ ps, PolygonOk p)
+    (t : Nat) (b : Bytes) (he : fromGeometry (.polygons ps) = .ok (t, b)) :
+    toGeometry t b = .ok (.polygons ps) :=
+  polygons_roundtrip ps hne hok t b he
+
+/-- malformed command streams (count 0, count beyond the data, unknown command id, truncation,
+    ClosePath without a point, cursor beyond `i64`) give `Err` or a geometry – never a panic -/
+theorem geom_decode_never_panics (t : Nat) (b : Bytes) : toGeometry t b ≠ .panic :=
+  toGeometry_no_panic t b
+
+/-- the encoder's ClosePath is the integer 7 (count 0), MVT 2.1 wants 15 (count 1): known finding
+    `closepath-count-0`; the round trip above holds because the own decoder ignores the count -/
+theorem closepath_count_zero : writeVarint 7 = [7] ∧ (7 : Nat) / 8 = 0 ∧ (15 : Nat) / 8 = 1 ∧ (15 : Nat) % 8 = 7 :=
+  VtProofs.Geom.closepath_count_zero
+
+/-- every pair of `i32` coordinates is encodable from every `i32` cursor: the delta fits `i64` -/
+theorem i32_points_encodable (cur p : Pt)
+    (hc : -(2:Int)^31 ≤ cur.1 ∧ cur.1 < (2:Int)^31 ∧ -(2:Int)^31 ≤ cur.2 ∧ cur.2 < (2:Int)^31)
+    (hp : -(2:Int)^31 ≤ p.1 ∧ p.1 < (2:Int)^31 ∧ -(2:Int)^31 ≤ p.2 ∧ p.2 < (2:Int)^31) :
+    ∃ b, writePoint cur p = .ok (b, p) ∧ PtOk p := by
+  have h1 : inI64 (p.1 - cur.1) = true := by rw [inI64_iff]; omega
+  have h2 : inI64 (p.2 - cur.2) = true := by rw [inI64_iff]; omega
+  refine ⟨writeSVarint (p.1 - cur.1) ++ writeSVarint (p.2 - cur.2), ?_, ?_⟩
+  · simp [writePoint, chkI64, h1, h2]
+  · exact ⟨by rw [inI64_iff]; omega, by rw [inI64_iff]; omega⟩
+
+end geometry
 
 end VtProps.C11
